@@ -163,3 +163,76 @@ def check_late_binding(ctx, module_names, rule="LATEBIND"):
         else:
             ctx.hold(rule, mn, None, "no function created in a loop captures a loop variable by name")
     return n
+
+
+# ---------------------------------------------------------------------------------------------------------------------
+# MUTDEFAULT — a mutable default argument that the function fills or hands out is state shared by all calls
+def mutable_default_sites(tree):
+    out = []
+    for fn in ast.walk(tree):
+        if not isinstance(fn, (ast.FunctionDef, ast.AsyncFunctionDef)):
+            continue
+        a = fn.args
+        pos = a.posonlyargs + a.args
+        pairs = list(zip(pos[len(pos) - len(a.defaults):], a.defaults)) + [(p, d) for p, d in zip(a.kwonlyargs, a.kw_defaults) if d is not None]
+        for p, d in pairs:
+            mutable = isinstance(d, (ast.Dict, ast.List, ast.Set)) or (isinstance(d, ast.Call) and U(d.func) in ("dict", "list", "set", "collections.defaultdict", "defaultdict"))
+            if not mutable:
+                continue
+            nm = p.arg
+            if any(isinstance(x, ast.Name) and x.id == nm and isinstance(x.ctx, ast.Store) for x in ast.walk(fn)):
+                rebinds = [x for x in ast.walk(fn) if isinstance(x, (ast.Assign, ast.AnnAssign)) and any(isinstance(t, ast.Name) and t.id == nm for t in (x.targets if isinstance(x, ast.Assign) else [x.target]))]
+            else:
+                rebinds = []
+            uses = []
+            for x in ast.walk(fn):
+                tg = x.targets if isinstance(x, ast.Assign) else ([x.target] if isinstance(x, ast.AugAssign) else [])
+                for t in tg:
+                    if isinstance(t, ast.Subscript) and isinstance(t.value, ast.Name) and t.value.id == nm:
+                        uses.append(x)
+                if isinstance(x, ast.Call) and isinstance(x.func, ast.Attribute) and isinstance(x.func.value, ast.Name) and x.func.value.id == nm and x.func.attr in MUTATORS:
+                    uses.append(x)
+                if isinstance(x, ast.Return) and x.value is not None:
+                    direct = [x.value] + (list(x.value.elts) if isinstance(x.value, (ast.Tuple, ast.List)) else [])
+                    if any(isinstance(y, ast.Name) and y.id == nm for y in direct):
+                        uses.append(x)  # the default object itself is handed to the caller
+            if uses and not rebinds:
+                out.append((fn, p, uses[0]))
+    return out
+
+
+_MUTDEFAULT_FIXTURE = """
+def bad(x, acc={}):
+    acc[x] = 1
+    return acc
+def good(x, acc=None):
+    acc = {} if acc is None else acc
+    acc[x] = 1
+    return acc
+def harmless(x, opts={}):
+    return opts.get("a", x)
+"""
+
+
+def check_mutable_defaults(ctx, module_names, rule="MUTDEFAULT"):
+    from ..model import AnalysisError
+
+    fx = mutable_default_sites(ast.parse(_MUTDEFAULT_FIXTURE))
+    if len(fx) != 1 or fx[0][0].name != "bad":
+        raise AnalysisError("MUTDEFAULT fixture was not flagged exactly once — rule is blind", rule)
+    ctx.info(rule, "fixture:mutable-default", None, "positive example flagged (rule is live)")
+    n = 0
+    for mn in module_names:
+        mod = ctx.model.modules.get(mn)
+        if mod is None:
+            continue
+        n += 1
+        sites = mutable_default_sites(mod.tree)
+        if sites:
+            for fn, p, use in sites:
+                ctx.violate(rule, f"{mn}.{fn.name}:{p.arg}", use,
+                            f"`{fn.name}` fills or hands out its mutable default argument `{p.arg}` (`{U(use)[:60]}`): the same object serves every call that omits the argument, so entries written by one "
+                            "call (amplitudes, a width) are still there in the next one — the result depends on what was analysed before in the same process")
+        else:
+            ctx.hold(rule, mn, None, "no function modifies or returns a mutable default argument")
+    return n
